@@ -58,6 +58,8 @@ CLAUSE_PROPERTY = {
     "ME_Slots": "C07",
     "ME_Calls": "C13",
     "ME_Swept": None,
+    "ME_Steps": None,
+    "ME_SweepBounds": None,
     "CM_Append": "C17",
     "CM_OnePerKey": "C17",
     "CM_PrefixSame": "C17",
@@ -333,6 +335,8 @@ class Recorder:
             "target": _R("ess", cfgo.ess_ratio * cfgo.n_particles * (1 - RTOL)),
             "nTotal": _R("ess", core.n_total * (1 - RTOL)),
             "one": _R("beta", 1.0),
+            "minSweeps": int(cfgo.n_steps * cfgo.n_dim),
+            "maxSweeps": int(max(cfgo.n_max_steps, cfgo.n_steps) * cfgo.n_dim),
         }
         self._meta = {"label": self.label, "resumed": bool(r["resumed"]), "n_total": int(core.n_total),
                       "kernel": cfgo.sample, "resample": cfgo.resample, "vectorize": bool(cfgo.vectorize)}
@@ -565,7 +569,7 @@ class Recorder:
             self._emit("MutatePrior", slots=slots, dEvals=self.evals - self._mut_mark, calls=calls, nInf=n - a,
                        zInHull=in_hull, logz=self._ztag, _dbg={"logz": logz, "warm": list(self._warm)})
         else:
-            self._emit("MutateEnd", slots=slots, calls=calls, dEvals=self.evals - self._mcmc_mark)
+            self._emit("MutateEnd", slots=slots, calls=calls, dEvals=self.evals - self._mcmc_mark, steps=int(st.get_current("steps") or 0))
 
     def _on_committed(self, r):
         st = r["core"].state
